@@ -113,7 +113,7 @@ class RealAdapter:
 
 class Frame:
     __slots__ = ('inv', 'fid', 'path', 'args', 'kwargs', 'obs', 'variant',
-                 'retval', 'has_ret', 'B')
+                 'retval', 'has_ret', 'B', 'last_call_args')
 
     def __init__(self, inv, fid, path, args, kwargs, variant, B):
         self.inv = inv
@@ -126,6 +126,7 @@ class Frame:
         self.retval = None
         self.has_ret = False
         self.B = B
+        self.last_call_args = None
 
 
 def norm_answer(kind, ans, sb):
@@ -157,6 +158,7 @@ class Interp:
         self.trace = {}                   # inv -> obs list
         self.entries = {}                 # inv -> (variant, typed args)
         self.viol = []                    # in-run violations (real mode)
+        self.calls_log = []               # every build_file / subbuild call
         self.raised = []                  # exception objects raised by user code
         self.written = {}                 # path -> last bytes written
         self.last_raw = None
@@ -355,6 +357,7 @@ class Interp:
             func = self.make_func(fid)
             fname = self.funcs[fid]['name']
             n_before = len(self.order)
+            fr.last_call_args = (args, kwargs)
             try:
                 if self.mode == 'real':
                     r = B.build_file(path, fname, func, args, kwargs, cmp,
@@ -364,6 +367,9 @@ class Interp:
             except CrashError:
                 raise
             except Exception as e:
+                self.calls_log.append(
+                    {'key': 'f:' + sb.rel(path), 'frame': fr.inv, 'ok': False,
+                     'exc': type(e).__name__, 'entered': bool(func.entered)})
                 self.note_returned(func)
                 self.note_injected(e, 'f', path, None, None, None)
                 self.after_bf(fr, path, False, e, bool(func.entered))
@@ -371,6 +377,9 @@ class Interp:
                     raise
                 fr.obs.append(['bf', rel, '!' + type(e).__name__])
                 return
+            self.calls_log.append(
+                {'key': 'f:' + sb.rel(path), 'frame': fr.inv, 'ok': True,
+                 'exc': None, 'entered': bool(func.entered)})
             self.note_returned(func)
             self.last_raw = r
             self.after_bf(fr, path, True, None, bool(func.entered))
@@ -381,17 +390,25 @@ class Interp:
             kwargs = unjson(resolve_step(kwargs, self.build_no))
             func = self.make_func(fid)
             fname = self.funcs[fid]['name']
+            fr.last_call_args = (args, kwargs)
             try:
                 r = B.subbuild(fname, func, args, kwargs)
             except CrashError:
                 raise
             except Exception as e:
+                self.calls_log.append(
+                    {'key': sub_inv(fname, args, kwargs), 'frame': fr.inv,
+                     'ok': False, 'exc': type(e).__name__,
+                     'entered': bool(func.entered)})
                 self.note_returned(func)
                 self.note_injected(e, 's', None, fname, args, kwargs)
                 if not catch or getattr(e, '_fbsim_fatal', False):
                     raise
                 fr.obs.append(['sb', fid, '!' + type(e).__name__])
                 return
+            self.calls_log.append(
+                {'key': sub_inv(fname, args, kwargs), 'frame': fr.inv,
+                 'ok': True, 'exc': None, 'entered': bool(func.entered)})
             self.note_returned(func)
             self.last_raw = r
             fr.obs.append(['sb', fid, typed_repr(r)])
@@ -633,6 +650,15 @@ class Interp:
         elif what == 'args':
             _mutate_value(fr.args)
             _mutate_value(fr.kwargs)
+        elif what == 'callargs':
+            # the caller edits the containers it passed to its last
+            # build_file / subbuild call, after that call returned or raised
+            la = getattr(fr, 'last_call_args', None)
+            if la is not None:
+                for v in la[0]:
+                    _mutate_value(v)
+                for k in sorted(la[1]):
+                    _mutate_value(la[1][k])
 
     def late(self, fr, st):
         raise NotImplementedError
@@ -754,6 +780,15 @@ class Interp:
                 fr.obs.append(['th', i] + en)
         if crash is not None:
             raise crash
+
+
+def sub_inv(fname, args, kwargs):
+    """Invocation id of a subbuild (the same as in make_func)."""
+    try:
+        return 's:%s:%s' % (fname, digest(
+            repr((canon(list(args)), canon(dict(kwargs))))))
+    except TypeError:
+        return 's:%s:?' % fname
 
 
 def _mutate_value(v, top=True):
